@@ -192,7 +192,7 @@ class Job:
         if not native:
             fl.append("-DVP_CBMC")
         if self.prepare:
-            fl += self.prepare(workdir)
+            fl = self.prepare(workdir) + fl  # scratch copies shadow the repository's files
         return fl
 
 
